@@ -246,6 +246,21 @@ def gen_reserved_names():
     return gen
 
 
+def gen_method_context():
+    """Verbatim blocks whose validity depends on where Python compiles them: the parser's syntax check sees a statement on
+    its own, the built class has it inside a method. Whatever the parser lets through must build and instantiate."""
+    def gen():
+        blocks = ['from math import *', 'global t', 'nonlocal t', 'return', 'return 5', 'x = 1\nif x:\n    return',
+                  'yield', 'yield t', 'await t', 'global self', 'del t', 'import math', 'from math import pi',
+                  'class K:\n    pass', 'def f():\n    return 1', 'lambda: (yield)', 'global Y', '__class__', 'super()',
+                  'break', 'continue', 'for i in ():\n    break', 'while False:\n    continue', 'async def g():\n    await t']
+        for blk in blocks:
+            yield {'s': f'```\n{blk}\n```'}
+            yield {'s': f'Y = X\n```\n{blk}\n```'}
+            yield {'s': f'```\n{blk}\n```\nY = X[-1] + {{a}}'}
+    return gen
+
+
 def gen_strings(max_len, rhs_len, lhs_len):
     def gen():
         for n in range(0, max_len + 1):
@@ -466,6 +481,8 @@ def phases(tier):
         Phase('strings', check_string, gen=gen_strings(3, 3, 3) if quick else gen_strings(4, 4, 4), exhaustive=True),
         Phase('reserved-names', check_string, gen=gen_reserved_names(), exhaustive=True, shards=4,
               note='every attribute / property / method name of a model object as a variable, parameter or error name'),
+        Phase('method-context-statements', check_string, gen=gen_method_context(), exhaustive=True, shards=2,
+              note='verbatim statements that are valid only inside / only outside a function body'),
         Phase('keyword-token-strings', check_string, gen=gen_keyword_tokens(4, 5) if quick else gen_keyword_tokens(5, 6), exhaustive=True),
         Phase('mutated-scripts', check_mutant, strategy=strat_mutants, examples=4000 if quick else 120000),
         Phase('valid-and-canary-scripts', check_valid, strategy=strat_valid, examples=1500 if quick else 30000),
